@@ -604,4 +604,323 @@ theorem exec_flat {P : Prog} (hflat : Flat P) (c : NodeId → Res Nat) (n : Nat)
   rw [hp]
   exact execBody_flat hflat c n _ id v (hinv.congr hinv.stack rfl rfl rfl rfl) hv
 
+
+/-! ## source operations -/
+
+/-- the entry of one key changes — overwritten or inserted with the stamp of the new epoch, or
+removed — and the epoch advances; everything else is as before -/
+theorem NodeOk.touch {P : Prog} {s : Storage} {n : NodeId} {r : Rev} (h : NodeOk P s n r) {s' : Storage} (k0 : Key)
+    (he : s'.epoch = s.epoch + 1)
+    (hk0 : alookup s'.srcs k0 = none ∨ ∃ nd, alookup s'.srcs k0 = some nd ∧ nd.tu = s.epoch + 1)
+    (hsame : ∀ k, k ≠ k0 → alookup s'.srcs k = alookup s.srcs k ∧ keyObs s'.srcs s'.maps k = keyObs s.srcs s.maps k) :
+    NodeOk P s' n r := by
+  refine ⟨by rw [he]; exact Nat.le_succ_of_le h.tv_le, h.noDerived, h.stamps, ?_, ?_⟩
+  · intro ht; have := h.tv_le; omega
+  · intro σ' m' c' hf
+    refine h.sound σ' m' c' ?_
+    intro d hd
+    have hm := hf d hd
+    unfold DepMatch at hm ⊢
+    cases hn : d.node with
+    | source k =>
+      rw [hn] at hm
+      simp only at hm ⊢
+      obtain ⟨⟨nd, hnd, hle⟩, ho⟩ := hm
+      have hne : k ≠ k0 := by
+        intro e; subst e
+        have h1 := h.stamps d hd
+        have h2 := h.tv_le
+        rcases hk0 with hk0 | ⟨nd', hnd', htu⟩
+        · rw [hk0] at hnd; cases hnd
+        · rw [hnd'] at hnd; cases hnd; omega
+      obtain ⟨e1, e2⟩ := hsame k hne
+      exact ⟨⟨nd, by rw [← e1]; exact hnd, hle⟩, by rw [← e2]; exact ho⟩
+    | absent k => rw [hn] at hm; exact hm
+    | derived m => rw [hn] at hm; exact hm
+
+/-- `setSource` followed by an arbitrary change of the tracked field guarded by the counter `k0` -/
+theorem Inv1.setSource {P : Prog} {s : Storage} (h : Inv1 P s) (k0 : Key) (v : Nat) (maps' : List (List Nat))
+    (hmaps : ∀ i, Key.ctr i ≠ k0 → mapLen maps' i = mapLen s.maps i)
+    (hchg : alookup s.srcs k0 = none ∨ (∃ nd, alookup s.srcs k0 = some nd ∧ nd.val ≠ v) ∨ maps' = s.maps) :
+    Inv1 P { setSource s k0 v with maps := maps' } := by
+  -- the two branches that change something have the same shape
+  have hch : Inv1 P { s with epoch := s.epoch + 1, srcs := ainsert s.srcs k0 ⟨v, s.epoch + 1⟩, maps := maps' } := by
+    refine ⟨h.stack, ?_, ?_, ?_⟩
+    · intro k nd' hk
+      simp only [alookup_ainsert] at hk
+      by_cases hkk : k0 = k
+      · simp [hkk] at hk; subst hk; exact Nat.le_refl _
+      · simp [hkk] at hk; exact Nat.le_succ_of_le (h.srcTu k nd' hk)
+    · intro i hi
+      simp only [alookup_ainsert] at hi
+      by_cases hkk : k0 = .ctr i
+      · simp [hkk] at hi
+      · simp [hkk] at hi
+        show mapLen maps' i = 0
+        rw [hmaps i (fun e => hkk e.symm)]; exact h.mapsInit i hi
+    · intro n r hn
+      refine (h.nodes n r hn).touch k0 rfl (Or.inr ⟨⟨v, s.epoch + 1⟩, alookup_ainsert_self _ _ _, rfl⟩) ?_
+      intro k hne
+      have h1 : alookup (ainsert s.srcs k0 ⟨v, s.epoch + 1⟩) k = alookup s.srcs k := alookup_ainsert_ne _ _ _ _ (Ne.symm hne)
+      exact ⟨h1, keyObs_of_lookup_maps h1 (fun i hi => hmaps i (by rw [← hi]; exact hne))⟩
+  unfold IsoVerif.Pico.setSource
+  cases hl : alookup s.srcs k0 with
+  | none => exact hch
+  | some nd =>
+    simp only
+    by_cases hv : nd.val ≠ v
+    · simp only [if_pos hv]; exact hch
+    · simp only [if_neg hv]
+      have hm : maps' = s.maps := by
+        rcases hchg with hc | ⟨nd', hnd', hne⟩ | hc
+        · rw [hl] at hc; cases hc
+        · rw [hl] at hnd'; cases hnd'; exact absurd hne hv
+        · exact hc
+      exact h.congr h.stack rfl rfl hm rfl
+
+theorem setSource_maps (s : Storage) (k : Key) (v : Nat) : (setSource s k v).maps = s.maps := by
+  unfold setSource; split
+  · split <;> rfl
+  · rfl
+
+theorem Inv1.setSource' {P : Prog} {s : Storage} (h : Inv1 P s) (k0 : Key) (v : Nat) :
+    Inv1 P (IsoVerif.Pico.setSource s k0 v) := by
+  have := h.setSource k0 v s.maps (fun _ _ => rfl) (Or.inr (Or.inr rfl))
+  exact this.congr this.stack rfl rfl (setSource_maps s k0 v) rfl
+
+theorem Inv1.removeSource {P : Prog} {s : Storage} (h : Inv1 P s) (k0 : Key) (hnc : ∀ i, k0 ≠ .ctr i) :
+    Inv1 P (removeSource s k0) := by
+  unfold IsoVerif.Pico.removeSource
+  cases hl : alookup s.srcs k0 with
+  | none => exact h
+  | some nd =>
+    simp only
+    refine ⟨h.stack, ?_, ?_, ?_⟩
+    · intro k nd' hk
+      by_cases hkk : k0 = k
+      · subst hkk; rw [alookup_aerase_self] at hk; cases hk
+      · rw [alookup_aerase_ne _ _ _ hkk] at hk; exact Nat.le_succ_of_le (h.srcTu k nd' hk)
+    · intro i hi
+      rw [alookup_aerase_ne _ _ _ (hnc i)] at hi
+      exact h.mapsInit i hi
+    · intro n r hn
+      refine (h.nodes n r hn).touch k0 rfl (Or.inl (alookup_aerase_self _ _)) ?_
+      intro k hne
+      have h1 : alookup (aerase s.srcs k0) k = alookup s.srcs k := alookup_aerase_ne _ _ _ (Ne.symm hne)
+      exact ⟨h1, keyObs_of_lookup_maps h1 (fun _ _ => rfl)⟩
+
+/-! ## every operation -/
+
+theorem getD_setNth_ne {α : Type} (d x : α) : ∀ (l : List α) (m i : Nat), i ≠ m → (setNth l m x).getD i d = l.getD i d := by
+  intro l
+  induction l with
+  | nil => intro m i _; rfl
+  | cons y ys ih =>
+    intro m i hne
+    cases m with
+    | zero =>
+      cases i with
+      | zero => exact absurd rfl hne
+      | succ i => simp [setNth]
+    | succ m =>
+      cases i with
+      | zero => simp [setNth]
+      | succ i => simp [setNth]; exact ih m i (fun e => hne (by rw [e]))
+
+theorem mapLen_setNth_ne (maps : List (List Nat)) (m i : Nat) (x : List Nat) (h : i ≠ m) :
+    mapLen (setNth maps m x) i = mapLen maps i := by
+  unfold mapLen; rw [getD_setNth_ne _ _ _ _ _ h]
+
+theorem Inv1.touchCounter_maps {P : Prog} {s : Storage} (h : Inv1 P s) (m : Nat) (x : List Nat) :
+    Inv1 P { touchCounter s m with maps := setNth (touchCounter s m).maps m x } := by
+  have hmaps : (touchCounter s m).maps = s.maps := by
+    unfold touchCounter
+    cases hl : alookup s.srcs (.ctr m) with
+    | none => exact setSource_maps _ _ _
+    | some nd => exact setSource_maps _ _ _
+  rw [hmaps]
+  unfold touchCounter
+  cases hl : alookup s.srcs (.ctr m) with
+  | none =>
+    simp only
+    exact h.setSource (.ctr m) 0 _ (fun i hi => mapLen_setNth_ne _ _ _ _ (fun e => hi (by rw [e]))) (Or.inl hl)
+  | some nd =>
+    simp only
+    exact h.setSource (.ctr m) (nd.val + 1) _ (fun i hi => mapLen_setNth_ne _ _ _ _ (fun e => hi (by rw [e])))
+      (Or.inr (Or.inl ⟨nd, hl, by omega⟩))
+
+theorem Inv1.gc {P : Prog} {s : Storage} (h : Inv1 P s) : Inv1 P (gc s).1 := by
+  unfold IsoVerif.Pico.gc
+  simp only
+  split
+  · exact h.congr h.stack rfl rfl rfl rfl
+  · refine ⟨h.stack, h.srcTu, h.mapsInit, ?_⟩
+    intro n r hn
+    exact (h.nodes n r (alookup_filterKey_some _ _ _ _ hn)).congr rfl rfl rfl
+
+/-- the outcome of a call in a state satisfying the invariant -/
+theorem step_call_flat {P : Prog} (hflat : Flat P) (fuel : Nat) (s : Storage) (f a v : Nat) (hinv : Inv1 P s)
+    (hv : evalS fuel P s.srcs s.maps [] (nodeOf P f a) = .ok v) :
+    Inv1 P (step fuel P s (.call f a)).1 ∧
+      ((step fuel P s (.call f a)).2 = .dead ∨ (step fuel P s (.call f a)).2 = .val v) := by
+  unfold step
+  by_cases hp : s.poisoned = true
+  · rw [if_pos hp]; exact ⟨hinv, Or.inl rfl⟩
+  · rw [if_neg hp]
+    cases fuel with
+    | zero => simp [evalS] at hv
+    | succ n =>
+      simp only [evalS] at hv
+      rw [if_neg (by simp)] at hv
+      obtain ⟨s', b, r, he, hinv', hl, hval, hep, hsr, hmp, _, _⟩ := exec_flat hflat _ n s (nodeOf P f a) v hinv hv
+      simp only [callVia, he, hl]
+      refine ⟨?_, Or.inr (by rw [hval])⟩
+      exact hinv'.congr hinv'.stack rfl rfl rfl rfl
+
+theorem Inv1.step {P : Prog} (hflat : Flat P) (fuel : Nat) {s : Storage} (hinv : Inv1 P s) (op : Op)
+    (hclean : ∀ f a, op = .call f a → ∃ v, evalS fuel P s.srcs s.maps [] (nodeOf P f a) = .ok v) :
+    Inv1 P (step fuel P s op).1 := by
+  cases op with
+  | call f a =>
+    obtain ⟨v, hv⟩ := hclean f a rfl
+    exact (step_call_flat hflat fuel s f a v hinv hv).1
+  | set k v =>
+    unfold IsoVerif.Pico.step; split
+    · exact hinv
+    · exact hinv.setSource' (.src k) v
+  | rem k =>
+    unfold IsoVerif.Pico.step; split
+    · exact hinv
+    · exact hinv.removeSource _ (fun i e => by cases e)
+  | sset i v =>
+    unfold IsoVerif.Pico.step; split
+    · exact hinv
+    · exact hinv.setSource' (.sing i) v
+  | srem i =>
+    unfold IsoVerif.Pico.step; split
+    · exact hinv
+    · exact hinv.removeSource _ (fun i e => by cases e)
+  | tins m k =>
+    unfold IsoVerif.Pico.step; split
+    · exact hinv
+    · exact hinv.touchCounter_maps m _
+  | trem m k =>
+    unfold IsoVerif.Pico.step; split
+    · exact hinv
+    · exact hinv.touchCounter_maps m _
+  | look f a =>
+    unfold IsoVerif.Pico.step; split
+    · exact hinv
+    · simp only; split
+      · split <;> exact hinv
+      · exact hinv
+  | retain f a =>
+    unfold IsoVerif.Pico.step; split
+    · exact hinv
+    · simp only; split
+      · exact hinv.congr hinv.stack rfl rfl rfl rfl
+      · exact hinv
+  | unretain f a =>
+    unfold IsoVerif.Pico.step; split
+    · exact hinv
+    · simp only; split
+      · exact hinv.congr hinv.stack rfl rfl rfl rfl
+      · exact hinv
+  | nevergc f a =>
+    unfold IsoVerif.Pico.step; split
+    · exact hinv
+    · simp only; split
+      · exact hinv.congr hinv.stack rfl rfl rfl rfl
+      · exact hinv
+  | gc =>
+    unfold IsoVerif.Pico.step; split
+    · exact hinv
+    · have := hinv.gc
+      cases hg : IsoVerif.Pico.gc s with
+      | mk s' r =>
+        rw [hg] at this
+        cases r <;> exact this
+
+theorem Inv1.init (P : Prog) (cap nfn : Nat) : Inv1 P (Storage.init cap nfn) :=
+  ⟨rfl, by intro k nd h; simp [Storage.init] at h,
+   by intro i _; cases i with
+      | zero => rfl
+      | succ i => cases i <;> rfl,
+   by intro n r h; simp [Storage.init] at h⟩
+
+theorem runS_nil (fuel : Nat) (P : Prog) (s : Storage) : runS fuel P s [] = s := rfl
+
+theorem runS_cons (fuel : Nat) (P : Prog) (s : Storage) (op : Op) (ops : List Op) :
+    runS fuel P s (op :: ops) = runS fuel P (step fuel P s op).1 ops := by
+  simp [runS, run]
+
+theorem runS_append (fuel : Nat) (P : Prog) : ∀ (xs : List Op) (s : Storage) (ys : List Op),
+    runS fuel P s (xs ++ ys) = runS fuel P (runS fuel P s xs) ys := by
+  intro xs
+  induction xs with
+  | nil => intro s ys; rfl
+  | cons x xs ih => intro s ys; simp only [List.cons_append, runS_cons]; exact ih _ _
+
+/-- the invariant holds after every prefix of a history whose calls are clean -/
+theorem inv1_runS {P : Prog} (hflat : Flat P) (fuel : Nat) : ∀ (pre : List Op) (s : Storage), Inv1 P s →
+    (∀ p f a rest, pre = p ++ Op.call f a :: rest →
+        ∃ v, evalS fuel P (runS fuel P s p).srcs (runS fuel P s p).maps [] (nodeOf P f a) = .ok v) →
+    Inv1 P (runS fuel P s pre) := by
+  intro pre
+  induction pre with
+  | nil => intro s h _; exact h
+  | cons op ops ih =>
+    intro s h hc
+    rw [runS_cons]
+    refine ih _ (h.step hflat fuel op ?_) ?_
+    · intro f a hop; subst hop; exact hc [] f a ops rfl
+    · intro p f a rest hp
+      have := hc (op :: p) f a rest (by rw [hp]; rfl)
+      rw [runS_cons] at this; exact this
+
+/-- **C01, stage 1** -/
+theorem c01_stage1 {P : Prog} (hflat : Flat P) (fuel cap : Nat) (h : List Op) (hclean : CleanCalls fuel cap P h)
+    (pre : List Op) (f a : Nat) (rest : List Op) (hh : h = pre ++ Op.call f a :: rest) :
+    (step fuel P (after fuel cap P pre) (.call f a)).2 = .dead ∨
+      (step fuel P (after fuel cap P pre) (.call f a)).2 = outOfRes (evalScratch fuel P (after fuel cap P pre) (nodeOf P f a)) := by
+  have hinv : Inv1 P (after fuel cap P pre) := by
+    unfold after
+    refine inv1_runS hflat fuel pre _ (Inv1.init P cap P.length) ?_
+    intro p f' a' rest' hp
+    exact hclean p f' a' (rest' ++ Op.call f a :: rest) (by rw [hh, hp]; simp)
+  obtain ⟨v, hv⟩ := hclean pre f a rest hh
+  rcases (step_call_flat hflat fuel _ f a v hinv hv).2 with hd | hval
+  · exact Or.inl hd
+  · right; rw [hval]; unfold evalScratch; rw [hv]; rfl
+
+/-! ## a decidable form of `CleanCalls` (for concrete histories) -/
+
+def Res.isOk {α : Type} : Res α → Bool
+  | .ok _ => true
+  | .panic _ => false
+
+def cleanAt (fuel cap : Nat) (P : Prog) (h : List Op) (i : Nat) : Bool :=
+  match h.getD i .gc with
+  | .call f a => (evalS fuel P (after fuel cap P (h.take i)).srcs (after fuel cap P (h.take i)).maps [] (nodeOf P f a)).isOk
+  | _ => true
+
+def cleanCallsB (fuel cap : Nat) (P : Prog) (h : List Op) : Bool := (List.range h.length).all (cleanAt fuel cap P h)
+
+theorem cleanCalls_of_B (fuel cap : Nat) (P : Prog) (h : List Op) (hb : cleanCallsB fuel cap P h = true) :
+    CleanCalls fuel cap P h := by
+  intro pre f a rest hh
+  have hlen : pre.length < h.length := by rw [hh]; simp
+  have hat : cleanAt fuel cap P h pre.length = true := by
+    unfold cleanCallsB at hb
+    rw [List.all_eq_true] at hb
+    exact hb _ (List.mem_range.2 hlen)
+  have htake : h.take pre.length = pre := by rw [hh]; simp
+  have hget : h.getD pre.length .gc = .call f a := by rw [hh]; simp
+  unfold cleanAt at hat
+  rw [hget, htake] at hat
+  simp only at hat
+  cases he : evalS fuel P (after fuel cap P pre).srcs (after fuel cap P pre).maps [] (nodeOf P f a) with
+  | ok v => exact ⟨v, rfl⟩
+  | panic p => rw [he] at hat; simp [Res.isOk] at hat
+
 end IsoVerif.Pico
